@@ -89,6 +89,28 @@ impl Context {
     }
 }
 
+#[cfg(trusttunnel_verif)]
+impl Context {
+    /// Verification door: a context that carries `settings` and nothing else
+    /// (no authenticator, no TLS hosts, no ICMP forwarder)
+    pub(crate) fn verif_with_settings(settings: Settings) -> io::Result<Arc<Self>> {
+        let settings = Arc::new(settings);
+        let tls_hosts = settings::TlsHostsSettings::verif_empty();
+        let (fatal_error, _fatal_error_rx) = watch::channel(None);
+        Ok(Arc::new(Self {
+            settings: settings.clone(),
+            authenticator: None,
+            tls_demux: Arc::new(RwLock::new(TlsDemux::new(&settings, &tls_hosts)?)),
+            icmp_forwarder: None,
+            shutdown: Shutdown::new(),
+            fatal_error,
+            metrics: Metrics::new()?,
+            next_client_id: Default::default(),
+            next_tunnel_id: Default::default(),
+        }))
+    }
+}
+
 impl Core {
     pub(crate) fn is_too_many_open_files_error(e: &io::Error) -> bool {
         matches!(
